@@ -125,7 +125,9 @@ func genPoolMain(seed uint64, n int) int {
 		// earlier op, with one thing changed. A cache or scratch state keyed too
 		// coarsely returns the earlier op's answer for the later one.
 		if i > 0 && r.Chance(1, 3) {
-			if sib := siblingOf(r, ops[r.Intn(i)]); sib != nil {
+			j := r.Intn(i)
+			if sib := siblingOf(r, ops[j]); sib != nil {
+				sib.Sib = j + 1
 				ops[i] = sib
 			}
 		}
@@ -180,7 +182,9 @@ func siblingOf(r *Rng, base *Op) *Op {
 			}
 		}
 	case "Sign", "PrivSign":
-		if r.Chance(1, 2) {
+		if r.Chance(1, 3) && op.KL == 0 {
+			op.Other = 1 - op.Other // same public half, foreign seed (or back)
+		} else if r.Chance(1, 2) {
 			op.ML = op.ML + 1
 		} else if op.Fn == "PrivSign" && op.Opt.Form == 0 && op.Opt.Hash <= 1 {
 			op.Opt.Ctx = (op.Opt.Ctx + 1) % 256
@@ -212,11 +216,12 @@ func loadPool(path string) []*Op {
 // Ref is the solo reference of one pool op: its complete outcome when it is
 // the first and only library call of a fresh process.
 type Ref struct {
-	T      string `json:"t"`
-	I      int    `json:"i"`
-	Digest string `json:"digest"`
-	Pts    int64  `json:"pts"`
-	Fn     string `json:"fn"`
+	T      string  `json:"t"`
+	I      int     `json:"i"`
+	Digest string  `json:"digest"`
+	Pts    int64   `json:"pts"`
+	Fn     string  `json:"fn"`
+	Sync   []int64 `json:"sync,omitempty"` // steps at which the call performed synchronisation operations
 }
 
 func soloMain(poolFile string, index, count int) int {
@@ -224,9 +229,13 @@ func soloMain(poolFile string, index, count int) int {
 	ops := loadPool(poolFile)
 	for i := index; i < index+count && i < len(ops); i++ {
 		p := prepare(ops[i])
+		zzsimrt.RecordSync(true)
+		zzsimrt.TakeSync()
 		out := execOp(p)
+		sync := zzsimrt.TakeSync()
+		zzsimrt.RecordSync(false)
 		p.G.Release()
-		emit(Ref{T: "ref", I: i, Digest: out.Digest(), Pts: out.Pts, Fn: ops[i].Fn})
+		emit(Ref{T: "ref", I: i, Digest: out.Digest(), Pts: out.Pts, Fn: ops[i].Fn, Sync: sync})
 	}
 	return 0
 }
@@ -277,6 +286,22 @@ func sweepPlan(pool []*Op, refs []Ref) []sweepItem {
 		}
 	}
 	var items []sweepItem
+	// first: preempt a right after each of its synchronisation operations
+	// (the places where an atomicity violation without a data race lives)
+	for _, a := range short {
+		seen := map[int64]bool{}
+		for _, sp := range refs[a].Sync {
+			for _, p := range []int64{sp, sp + 1} {
+				if p < 1 || p > refs[a].Pts || seen[p] {
+					continue
+				}
+				seen[p] = true
+				for _, b := range short {
+					items = append(items, sweepItem{a, b, p})
+				}
+			}
+		}
+	}
 	for _, a := range short {
 		n := refs[a].Pts
 		step := n / sweepGrid
@@ -350,7 +375,31 @@ func genEpisode(seed uint64, worker, idx int, pool []*Op, refs []Ref, force stri
 		only = pool[r.Intn(len(pool))].Fn
 	}
 	budget := int64(episodePtsCap)
+	// siblings of an op (same keys and messages, one thing changed) are often
+	// scheduled right behind it: "last input" caches are only wrong for the
+	// very next call
+	sibs := map[int][]int{}
+	for i, op := range pool {
+		if op.Sib > 0 {
+			sibs[op.Sib-1] = append(sibs[op.Sib-1], i)
+			sibs[i] = append(sibs[i], op.Sib-1)
+		}
+	}
+	pending := -1
+	draw0 := func() int { return 0 }
 	draw := func() int {
+		if pending >= 0 {
+			i := pending
+			pending = -1
+			return i
+		}
+		i := draw0()
+		if l := sibs[i]; len(l) > 0 && r.Chance(1, 2) {
+			pending = l[r.Intn(len(l))]
+		}
+		return i
+	}
+	draw0 = func() int {
 		for tries := 0; tries < 30; tries++ {
 			i := r.Intn(len(pool))
 			if only != "" && pool[i].Fn != only && tries < 20 {
@@ -633,7 +682,9 @@ func runEpisode(ep *Episode, pool []*Op, refs []Ref, st *ConcStats, a *concArgs)
 					}
 				}
 				g = Grant{C: cand[r.Intn(len(cand))]}
-				switch r.Pick(50, 30, 20) {
+				switch r.Pick(50, 30, 20, 25) {
+				case 3:
+					g.S = zzsimrt.UntilSync // up to and including the next lock/unlock/pool/map/channel operation
 				case 0:
 					g.S = int64(r.Range(1, 2000))
 				case 1:
@@ -695,7 +746,9 @@ func runEpisode(ep *Episode, pool []*Op, refs []Ref, st *ConcStats, a *concArgs)
 		case zzsimrt.KPreempt:
 			st.Preempt++
 			cs.inOp = true
-			cs.prog += g.S
+			if g.S > 0 {
+				cs.prog += g.S
+			}
 			blockedStreak = 0
 			blockedSet = map[int]bool{}
 			if ep.Family == "pct" && !explicit {
@@ -865,6 +918,7 @@ var grantLog *os.File
 
 func concMain(a concArgs) int {
 	installHooks()
+	noChunkReuse = false // episodes release everything at their end: recycling between episodes models buffer reuse across calls
 	if a.grantlog != "" {
 		f, err := os.OpenFile(a.grantlog, os.O_CREATE|os.O_WRONLY|os.O_TRUNC, 0o644)
 		if err != nil {
